@@ -110,6 +110,9 @@ def call_shapes(sig, extra_kw=("zz", "yy"), method=False):
         if len(posonly) > 1:
             extras.append((posonly[-1],))
             extras.append((posonly[0], posonly[-1]))
+    if has_w:
+        extras.append(("*",))         # legal through ** unpacking; also the names of the surplus entries in joblib's own mapping
+        extras.append(("**", "zz"))
     if has_w and method:
         extras.append(("self",))      # accepted by Python when 'self' is positional-only
     for npos in range(0, len(pos) + 3):
